@@ -61,13 +61,14 @@ class _TreeNode:
         self.children: dict[str, _TreeNode] = {}
 
     def add(self, node_name: str, *extra: str) -> None:
-        child = self.children.get(node_name)
-        if not child:
-            self.children[node_name] = child = _TreeNode(node_name, self)
-        if not extra:
-            child.exists = True
-        else:
-            child.add(*extra)
+        # a loop, not recursion: the depth of a name is the client's choice
+        node = self
+        for part in (node_name, *extra):
+            child = node.children.get(part)
+            if not child:
+                node.children[part] = child = _TreeNode(part, node)
+            node = child
+        node.exists = True
 
 
 class ListTree:
@@ -119,23 +120,27 @@ class ListTree:
             self._marked.pop(name, None)
 
     def _iter(self, node: _TreeNode, name: str) -> Iterable[ListEntry]:
-        if node.parent is not None:
-            marked = self._marked.get(name)
-            yield ListEntry(name, node.exists, marked, bool(node.children))
-        for child in node.children.values():
+        # depth-first, parents before children, without recursion
+        stack = [(node, name)]
+        while stack:
+            node, name = stack.pop()
             if node.parent is not None:
-                child_name = self._delimiter.join((name, child.name))
-            else:
-                child_name = child.name
-            for entry in self._iter(child, child_name):
-                yield entry
+                marked = self._marked.get(name)
+                yield ListEntry(name, node.exists, marked,
+                                bool(node.children))
+            children = []
+            for child in node.children.values():
+                if node.parent is not None:
+                    child_name = self._delimiter.join((name, child.name))
+                else:
+                    child_name = child.name
+                children.append((child, child_name))
+            stack.extend(reversed(children))
 
     def _find(self, node: _TreeNode, node_name: str, *extra: str) -> _TreeNode:
-        child = node.children[node_name]
-        if extra:
-            return self._find(child, *extra)
-        else:
-            return child
+        for part in (node_name, *extra):
+            node = node.children[part]
+        return node
 
     def get(self, name: str) -> ListEntry | None:
         """Return the named entry in the list tree.
